@@ -545,7 +545,9 @@ func (r *Router) Find(method, path string, c Context) {
 
 	var (
 		previousBestMatchNode *node
-		matchedRouteMethod    *routeMethod
+		// previousBestMatchParams is copy of param values at the moment previousBestMatchNode (having notFoundHandler) was seen
+		previousBestMatchParams []string
+		matchedRouteMethod      *routeMethod
 		// search stores the remaining path to check for match. By each iteration we move from start of path to end of the path
 		// and search value gets shorter and shorter.
 		search      = path
@@ -642,6 +644,9 @@ func (r *Router) Find(method, path string, c Context) {
 				// best matching in case we do no find no more routes matching this path+method
 				if previousBestMatchNode == nil {
 					previousBestMatchNode = currentNode
+					if currentNode.notFoundHandler != nil {
+						previousBestMatchParams = append([]string(nil), paramValues[:paramIndex]...)
+					}
 				}
 				if h := currentNode.findMethod(method); h != nil {
 					matchedRouteMethod = h
@@ -748,6 +753,8 @@ func (r *Router) Find(method, path string, c Context) {
 			rPath = currentNode.notFoundHandler.ppath
 			rPNames = currentNode.notFoundHandler.pnames
 			ctx.handler = currentNode.notFoundHandler.handler
+			copy(paramValues, previousBestMatchParams) // backtracking has cleared these
+
 		} else if currentNode.isHandler {
 			ctx.Set(ContextKeyHeaderAllow, currentNode.methods.allowHeader)
 			ctx.handler = MethodNotAllowedHandler
